@@ -153,7 +153,6 @@ impl Space for RoundTrip {
         }
         let o = rn.run(&args);
         r.count("processes", 1);
-        r.count("tool_ms_create", o.ms);
         let apath = rn.cwd.join("a.mpq");
         if !o.ok() {
             r.err_return = true;
@@ -171,6 +170,11 @@ impl Space for RoundTrip {
             }
         };
         r.nontrivial = true;
+        // the archive the tool reported as created must hold every input under its file name
+        match mpq_has(&apath, &fs.files.iter().map(|(n, _)| n.clone()).collect::<Vec<_>>()) {
+            Ok(absent) if !absent.is_empty() => r.viol("mpq create: exit 0 but input files are not in the archive (library find_file)", format!("absent: {absent:?}; {}", o.brief())),
+            _ => {}
+        }
         // ---- list / info / tree agree with the library's view (once per archive configuration)
         if sel == 0 && !skip {
             let o = rn.run(&["mpq".into(), "list".into(), "a.mpq".into()]);
@@ -201,6 +205,18 @@ impl Space for RoundTrip {
                 r.count("info_compared", 1);
             } else {
                 r.count("info_refused", 1);
+            }
+            let o = rn.run(&["mpq".into(), "validate".into(), "a.mpq".into()]);
+            r.count("processes", 1);
+            if o.ok() {
+                if let Ok((n, first)) = validation_errors(Kind::Mpq, &apath, None) {
+                    if n > 0 {
+                        r.viol("mpq validate: exit 0 although the library-level validation it wraps reports errors", format!("fresh archive: {n} error(s), first: {first}; {}", o.brief()));
+                    }
+                }
+                r.count("validate_compared", 1);
+            } else {
+                r.count("validate_refused", 1);
             }
             let o = rn.run(&["mpq".into(), "tree".into(), "a.mpq".into(), "--no-color".into()]);
             r.count("processes", 1);
@@ -250,7 +266,6 @@ impl Space for RoundTrip {
                 let o = rn.run(&args);
                 r.count("processes", 1);
                 r.count("extractions", 1);
-                r.count("tool_ms_extract", o.ms);
                 let ctx = format!("threads={t:?} preserve={preserve}");
                 if !oc.contains(o.class()) {
                     oc.push_str(o.class());
